@@ -25,7 +25,7 @@ Theorem C04_complete_at_rest : forall c tr,
     match m_kind y with
     | MMap _ => m_idx y = length (m_els y) /\
                 tasks_of (run c tr) m + count e_bad (m_els y) = length (m_els y)
-    | _ => tasks_of (run c tr) m = (if m_bad y then 0 else m_num y)
+    | _ => tasks_of (run c tr) m = ngood (m_bad y) (m_num y)
     end.
 Proof.
   intros c tr Hc. apply requests_complete_at_rest; [now apply WFx_run|apply Extra_nc_run].
